@@ -32,6 +32,9 @@ int main() {
 	while (std::getline(std::cin, line)) {
 		auto t = vh::split(line);
 		if (t.empty() || t[0][0] == '#') continue;
+#ifdef LIBECPINT_VERIF
+		if (t.size() == 2 && t[0] == "noscreen") { libecpint::verif::no_screening = vh::I(t[1]) != 0; continue; }
+#endif
 		if (sys.parse_line(t)) continue;
 		if (t[0] == "results") { ECPIntegrator f; sys.make(f, vh::I(t[1]), vh::I(t[1]), vh::I(t[2])); results(f, vh::I(t[2])); continue; }
 		if (t[0] == "assemble") {
